@@ -701,6 +701,67 @@ func ruleC07Complement(c *Ctx) {
 		pol   bool
 		kind  string // "flag" (bool load) or "member" (map lookup)
 	}
+	var condAtoms func(v ssa.Value, pol bool, depth int) []atom
+	condAtoms = func(v ssa.Value, pol bool, depth int) []atom {
+		var out []atom
+		for {
+			if u, ok := v.(*ssa.UnOp); ok && u.Op == token.NOT {
+				v, pol = u.X, !pol
+				continue
+			}
+			break
+		}
+		memberOf := func(set ssa.Value) {
+			for _, s := range traceSources(set) {
+				if ld, ok := s.(*ssa.UnOp); ok {
+					if fa, ok := ld.X.(*ssa.FieldAddr); ok && m.isFrameAnns(fa) {
+						out = append(out, atom{core.CanonFieldOf(fa.X.Type(), fa.Field), pol, "member"})
+					}
+				}
+			}
+		}
+		switch x := v.(type) {
+		case *ssa.UnOp:
+			if fa, ok := x.X.(*ssa.FieldAddr); ok && x.Op == token.MUL && m.isFrameAnns(fa) {
+				out = append(out, atom{core.CanonFieldOf(fa.X.Type(), fa.Field), pol, "flag"})
+			}
+		case *ssa.Lookup:
+			memberOf(x.X)
+		case *ssa.Extract:
+			// _, ok := set[k]
+			if lk, ok := x.Tuple.(*ssa.Lookup); ok && x.Index == 1 {
+				memberOf(lk.X)
+			}
+		case *ssa.Call:
+			callee := x.Call.StaticCallee()
+			if callee == nil || !c.P.InPkg(callee) {
+				break
+			}
+			// set.has(k): a package function whose result is the presence of its second argument in its first
+			if len(x.Call.Args) == 2 && isMembershipFn(callee) {
+				memberOf(x.Call.Args[0])
+				break
+			}
+			// a predicate on the record (func (a *annotations) unevaluated(k) bool { return !a.all && !a.set[k] }):
+			// what its result implies
+			if depth > 0 && callee.Signature.Results().Len() == 1 && isBoolType(callee.Signature.Results().At(0).Type()) {
+				var rets []*ssa.Return
+				core.EachInstr(callee, func(i ssa.Instruction) {
+					if r, ok := i.(*ssa.Return); ok {
+						rets = append(rets, r)
+					}
+				})
+				if len(rets) == 1 {
+					rv := returnedValue(rets[0], 0)
+					out = append(out, condAtoms(rv, pol, depth-1)...)
+					for _, ga := range expandBoolPhi(rv, pol, rets[0], 0, 3) {
+						out = append(out, condAtoms(ga.Cond, ga.Pol, depth-1)...)
+					}
+				}
+			}
+		}
+		return out
+	}
 	var atomsOf func(ins ssa.Instruction) []atom
 	atomsOf = func(ins ssa.Instruction) []atom {
 		var out []atom
@@ -711,50 +772,7 @@ func ruleC07Complement(c *Ctx) {
 			if cond == nil {
 				continue
 			}
-			v := cond
-			for {
-				if u, ok := v.(*ssa.UnOp); ok && u.Op == token.NOT {
-					v, pol = u.X, !pol
-					continue
-				}
-				break
-			}
-			switch x := v.(type) {
-			case *ssa.UnOp:
-				if fa, ok := x.X.(*ssa.FieldAddr); ok && x.Op == token.MUL && m.isFrameAnns(fa) {
-					out = append(out, atom{core.CanonFieldOf(fa.X.Type(), fa.Field), pol, "flag"})
-				}
-			case *ssa.Lookup:
-				for _, s := range traceSources(x.X) {
-					if ld, ok := s.(*ssa.UnOp); ok {
-						if fa, ok := ld.X.(*ssa.FieldAddr); ok && m.isFrameAnns(fa) {
-							out = append(out, atom{core.CanonFieldOf(fa.X.Type(), fa.Field), pol, "member"})
-						}
-					}
-				}
-			case *ssa.Extract:
-				// _, ok := set[k]
-				if lk, ok := x.Tuple.(*ssa.Lookup); ok && x.Index == 1 {
-					for _, s := range traceSources(lk.X) {
-						if ld, ok := s.(*ssa.UnOp); ok {
-							if fa, ok := ld.X.(*ssa.FieldAddr); ok && m.isFrameAnns(fa) {
-								out = append(out, atom{core.CanonFieldOf(fa.X.Type(), fa.Field), pol, "member"})
-							}
-						}
-					}
-				}
-			case *ssa.Call:
-				// set.has(k): a package function whose result is the presence of its second argument in its first
-				if callee := x.Call.StaticCallee(); callee != nil && c.P.InPkg(callee) && len(x.Call.Args) == 2 && isMembershipFn(callee) {
-					for _, s := range traceSources(x.Call.Args[0]) {
-						if ld, ok := s.(*ssa.UnOp); ok {
-							if fa, ok := ld.X.(*ssa.FieldAddr); ok && m.isFrameAnns(fa) {
-								out = append(out, atom{core.CanonFieldOf(fa.X.Type(), fa.Field), pol, "member"})
-							}
-						}
-					}
-				}
-			}
+			out = append(out, condAtoms(cond, pol, 2)...)
 		}
 		if fn != m.E && fn.Parent() != nil {
 			// add the guards of the place where this closure is run
